@@ -693,8 +693,12 @@ def _run(ctx, torch):
             if stt == "ok":
                 l = sm // 2
                 sha = S.spherical_harmonics_s2_grid(l, 2 * (l + 1), res)[3]
-                st.oracle("irfft(x,res)=sha@x", float((y - sha @ torch.tensor(x)).abs().max()), 1e-11, "irfft/dense-evaluation", "s2",
-                          dict(call="o3.irfft(x, res) vs sha @ x", sm=sm, res=res, x=x.tolist()))
+                if sha.shape[1] != sm or tuple(y.shape) != (res,):
+                    # accepted an input outside the documented domain (sm = 2l+1 odd, res odd, res >= sm) or returned another length
+                    st.disagree("irfft", f"irfft {sm} {res} <x>", f"ok, result shape {tuple(y.shape)}", "sm = 2l+1 and a result of length res", float("inf"))
+                else:
+                    st.oracle("irfft(x,res)=sha@x", float((y - sha @ torch.tensor(x)).abs().max()), 1e-11, "irfft/dense-evaluation", "s2",
+                              dict(call="o3.irfft(x, res) vs sha @ x", sm=sm, res=res, x=x.tolist()))
     # torch.fft vs the DFT definition of the model (trusted link)
     dft_state = {"ok": True, "max": 0.0, "n": 0}
 
@@ -925,6 +929,24 @@ def _run(ctx, torch):
         ctx.obligation("witness:unchecked-res_alpha-breaks-roundtrip", err > 1e-3, f"roundtrip error {err}")
     except Exception as e:  # noqa: BLE001
         ctx.notes["unchecked_res_alpha"] = "constructor now rejects (6,3) for lmax=2: " + type(e).__name__
+
+    # coarse res_alpha (< 2 lmax + 1, accepted by the constructor): the round trip does not apply, but ToS2Grid still is the
+    # evaluation of the signal at the documented grid points (dense path for every parity of res_alpha)
+    for lmax_c in range(1, min(LMAX, 6) + 1):
+        for M_c in sorted({2 * lmax_c - 1, 2 * lmax_c, max(1, lmax_c), max(1, lmax_c + 1), 3}):
+            if M_c >= 2 * lmax_c + 1:
+                continue
+            for kind in KINDS:
+                cfg = dict(lmax=lmax_c, res=[2 * (lmax_c + 1), M_c], kind=kind, source="coarse-res_alpha")
+                try:
+                    e = check_direct(torch, o3, cfg)
+                except Exception as ex:  # noqa: BLE001
+                    ctx.count("coarse-res_alpha:constructor-" + type(ex).__name__)
+                    continue
+                ctx.case(("coarse", lmax_c, M_c, kind_name(kind)), nontrivial=True, sample_every=11)
+                ctx.count("forward:coarse-res_alpha-" + ("odd" if M_c % 2 else "even"))
+                st.oracle("ToS2Grid=direct-evaluation", e, 1e-12, "ToS2Grid/direct-evaluation", "s2",
+                          dict(call="o3.ToS2Grid(lmax, res, normalization)(eye) vs n_l Y^l(x_ij)  (res_alpha < 2 lmax + 1)", config=cfg))
 
     # ================================================================ 4. SO3Grid
     so3_cfgs = [(1, 2, 2), (2, 3, 2), (1, 3, 1), (2, 4, 1)]
